@@ -551,8 +551,8 @@ func c20MissingProvenance(fn *ssa.Function, m ssa.Value) c20Missing {
 				res.unsure = "missing set starts from a non-empty slice"
 			}
 		case *ssa.Slice:
-			// s[:0] of the same family
-			if hi, ok := an.ConstInt(x.High); ok && hi == 0 && x.Low == nil {
+			// s[:0] of the same family, or the empty literal `[]T{}`
+			if c20EmptySliceLit(x) {
 				return
 			}
 			res.unsure = "missing set is a sub-slice that is not followed"
@@ -696,6 +696,7 @@ func c20MissingProvenance(fn *ssa.Function, m ssa.Value) c20Missing {
 			continue
 		}
 		decided := false
+		notWalked := false
 		for _, mb := range ms {
 			var outs [2]map[string]bool
 			for i, present := range []bool{false, true} {
@@ -708,7 +709,30 @@ func c20MissingProvenance(fn *ssa.Function, m ssa.Value) c20Missing {
 				}, val: []bool{truth}}
 				outs[i] = c20IterOutcome(l, w, ap.Block())
 			}
-			if c19Is1(outs[0], "yes") && c19Is1(outs[1], "no") {
+			exact := c19Is1(outs[0], "yes") && c19Is1(outs[1], "no")
+			if !exact && (c20HasUnknown(outs[0]) || c20HasUnknown(outs[1])) {
+				// the iteration holds a nested loop (or another shape the path walker gives up on): decide by
+				// reachability inside one iteration under the two truth values of the membership test
+				at := func(present bool) func(ssa.Value) (bool, bool) {
+					return func(v ssa.Value) (bool, bool) {
+						if v == mb.cond {
+							return present == mb.present, true
+						}
+						return false, false
+					}
+				}
+				whenIn, u1 := c20IterReach(l, ap.Block(), at(true))
+				whenOut, u2 := c20IterReach(l, ap.Block(), at(false))
+				switch {
+				case u1 || u2:
+					notWalked = true
+				case whenOut && !whenIn:
+					exact = true
+				case !whenOut && !whenIn:
+					notWalked = true
+				}
+			}
+			if exact {
 				decided = true
 				if mb.why != "" {
 					prevFail(mb.why)
@@ -726,10 +750,23 @@ func c20MissingProvenance(fn *ssa.Function, m ssa.Value) c20Missing {
 				res.unsure = opaque
 				continue
 			}
+			if notWalked {
+				res.unsure = "the iteration that adds the index is not followed (merged conditions)"
+				continue
+			}
 			fail("an index is added to the missing set without having been looked up (and found absent) in the set of stored requested indices")
 		}
 	}
 	return res
+}
+
+func c20HasUnknown(m map[string]bool) bool {
+	for k := range m {
+		if strings.HasPrefix(k, "?") {
+			return true
+		}
+	}
+	return false
 }
 
 // c20HitMiss decides the hit/miss obligations of one entry point.
